@@ -29,7 +29,9 @@ ASSUMPTIONS = [
 ]
 SHARDS = {"quick": 8, "thorough": 16}
 EXC = ("ValueError", "KeyError", "RuntimeError", "ZeroDivisionError", "OSError", "TypeError", "IndexError", "AssertionError",
-       "StopIteration", "FloatingPointError", "ProbeError", "TwoArgError")
+       "StopIteration", "FloatingPointError", "OverflowError", "ArithmeticError", "LookupError", "AttributeError", "NotImplementedError",
+       "MemoryError", "RecursionError", "FileNotFoundError", "TimeoutError", "UnicodeError", "BufferError", "EOFError", "ImportError",
+       "NameError", "ReferenceError", "ProbeError", "TwoArgError")
 MODES = ("exposure", "exposure_debug", "obs_seq", "obs_seq", "obs_dask_sync", "obs_dask_threads")
 
 
@@ -178,8 +180,8 @@ def body(cfg, rec):
 # ------------------------------------------------------------------ calibration: fault at evaluation k
 def cal_site_cases():
     out = []
-    for exc in ("ValueError", "ProbeError", "TwoArgError", "ZeroDivisionError"):
-        for k in (0, 1, 7, 8, 11, 17):  # population 8: calls 0..7 = initial population, 8.. = evolution phase
+    for i, exc in enumerate(EXC):  # every exception class, in both phases
+        for k in ((0, 9), (1, 11), (7, 8), (3, 17))[i % 4]:  # population 8: calls 0..7 = initial population, 8.. = evolution phase
             out.append({"call": k, "exc": exc, "islands": 1 if k % 2 else 2})
     return out
 
